@@ -148,7 +148,7 @@ def compare_runs(make_handler, ci, cc, after, psel, k0, k1, setup=None):
     return r0, r1
 
 
-_B = ("crash at invocation 0(none)..3 x API call 1..4 x before/after apply; consumer steps 0 or 2 at the first preemption point of create_checkpoint; ")
+_B = ("crash at invocation 0(none)..3 x API call 1..4 x before/after apply; consumer runs 0 or 2 steps ahead right after the first hand-over of each invocation; ")
 PAGE = [None, 1, 2]
 
 
